@@ -68,6 +68,7 @@ func c18Names(maxTok int) []string {
 type c18Opt struct {
 	id                                                    string
 	noUnits, noSuffix, ns, noScope, noTarget, resConstant bool
+	nsDot                                                 bool // WithNamespace("n.s"): a namespace that itself needs sanitising under the legacy scheme
 }
 
 var c18Opts = []c18Opt{
@@ -75,6 +76,7 @@ var c18Opts = []c18Opt{
 	{id: "WithoutUnits", noUnits: true},
 	{id: "WithoutCounterSuffixes", noSuffix: true},
 	{id: "WithNamespace", ns: true},
+	{id: "WithNamespace(n.s)", nsDot: true},
 	{id: "WithoutScopeInfo", noScope: true},
 	{id: "WithoutTargetInfo", noTarget: true},
 	{id: "WithResourceAsConstantLabels", resConstant: true},
@@ -91,6 +93,9 @@ func (o c18Opt) options() []Option {
 	}
 	if o.ns {
 		os = append(os, WithNamespace("ns"))
+	}
+	if o.nsDot {
+		os = append(os, WithNamespace("n.s"))
 	}
 	if o.noScope {
 		os = append(os, WithoutScopeInfo())
@@ -113,7 +118,7 @@ func (o c18Opt) namingGroup() string {
 	if o.noSuffix {
 		p = append(p, "WithoutCounterSuffixes")
 	}
-	if o.ns {
+	if o.ns || o.nsDot {
 		p = append(p, "WithNamespace")
 	}
 	if len(p) == 0 {
@@ -601,6 +606,9 @@ func (c *c18Run) one(name, unit string, kind c18Kind, opt c18Opt, legacy bool, s
 	cas := c18Case{Name: name, Unit: unit, Kind: kind.id, Opt: opt.id, Scheme: schemeName(legacy), Sets: describeSets(sets)}
 	ncls := nameClass(name)
 
+	// Option values are built before the scheme is selected (the process default is UTF-8), the way
+	// a package-level []Option is: what an option does is decided when New applies it.
+	prebuilt := opt.options()
 	saved := model.NameValidationScheme //nolint:staticcheck // this is how this version of the exporter selects the scheme
 	if legacy {
 		model.NameValidationScheme = model.LegacyValidation //nolint:staticcheck
@@ -615,7 +623,7 @@ func (c *c18Run) one(name, unit string, kind c18Kind, opt c18Opt, legacy bool, s
 
 	// ---- the system under test, fresh per case
 	reg := &capturingRegisterer{Registry: prometheus.NewRegistry()}
-	exp, err := New(append([]Option{WithRegisterer(reg)}, opt.options()...)...)
+	exp, err := New(append([]Option{WithRegisterer(reg)}, prebuilt...)...)
 	if err != nil || reg.got == nil {
 		r.FailHere("new|exporter construction failed", cas, "New: %v (collector registered: %v)", err, reg.got != nil)
 		return
@@ -685,6 +693,12 @@ func (c *c18Run) one(name, unit string, kind c18Kind, opt c18Opt, legacy bool, s
 	naming := refNaming{counter: kind.counter, noUnits: opt.noUnits, noSuffix: opt.noSuffix, legacy: legacy}
 	if opt.ns {
 		naming.namespace = "ns"
+	}
+	if opt.nsDot {
+		naming.namespace = "n.s"
+		if legacy {
+			naming.namespace = "n_s"
+		}
 	}
 	wantNames := refNames(name, unit, naming)
 
